@@ -66,6 +66,15 @@ pub fn load_bdd_bundle(
         let bdd = Bdd::read_as_string(&mut bdd_string.as_bytes()).map_err(|e| {
             format!("File `{filename}` of the archive {archive_path} is not a valid BDD: {e}")
         })?;
+        // the BDD must use the same symbolic encoding (including the HCTL variables)
+        let expected_vars = symbolic_context.bdd_variable_set().num_vars();
+        if bdd.num_vars() != expected_vars {
+            return Err(format!(
+                "BDD `{filename}` of the archive {archive_path} uses {} symbolic variables, but {} are needed (was it computed with a different number of HCTL variables?).",
+                bdd.num_vars(),
+                expected_vars
+            ));
+        }
         let set = GraphColoredVertices::new(bdd, symbolic_context);
         loaded_sets.insert(name.to_string(), set);
     }
